@@ -52,6 +52,7 @@ type TaskPlan struct {
 type Plan struct {
 	Exists []bool        `json:"exists"`         // per path: file exists at the start
 	Fifo   []bool        `json:"fifo,omitempty"` // per path: the lock file is a FIFO (non-regular: truncation fails and is tolerated)
+	NoDir  []bool        `json:"no_dir,omitempty"` // per path: the directory the lock file belongs in does not exist (every open must fail; nothing is locked)
 	Link   []bool        `json:"link,omitempty"` // per path: the name every client uses is a symbolic link to the lock file
 	Tasks  []TaskPlan    `json:"tasks"`
 	Faults []simos.Fault `json:"faults,omitempty"`
@@ -71,6 +72,7 @@ func genPlan(t *rapid.T, tier string) any {
 	replacing := rapid.IntRange(0, 5).Draw(t, "replacing") == 0
 	for i := 0; i < np; i++ {
 		p.Link = append(p.Link, !replacing && !p.Fifo[i] && rapid.IntRange(0, 4).Draw(t, "link") == 0)
+		p.NoDir = append(p.NoDir, !replacing && !p.Fifo[i] && !p.Link[i] && rapid.IntRange(0, 9).Draw(t, "nodir") == 0)
 	}
 	ntasks := 0
 	for pr := 1; pr <= procs; pr++ {
@@ -174,6 +176,11 @@ func run(t *testing.T, plan any, keep bool) *simcheck.Outcome {
 	paths := make([]string, len(p.Exists))
 	for i := range paths {
 		paths[i] = filepath.Join(dir, fmt.Sprintf("lock%c", 'A'+i))
+		if i < len(p.NoDir) && p.NoDir[i] {
+			paths[i] = filepath.Join(dir, fmt.Sprintf("gone%c", 'A'+i), fmt.Sprintf("lock%c", 'A'+i))
+			out.Count("shape_lock_directory_missing", 1)
+			continue
+		}
 		if i < len(p.Fifo) && p.Fifo[i] {
 			if err := syscall.Mkfifo(paths[i], 0o666); err != nil {
 				out.Inconclusive = "mkfifo: " + err.Error()
@@ -473,7 +480,7 @@ var harness = &simcheck.Harness{
 	Level:    "exploration",
 	Rule: "rapid draws 1-3 simulated processes x 1-3 goroutines (at most 6 tasks) x 1-4 operations on 1-2 lock files: OpenFile with every access mode +-O_CREATE/O_TRUNC/O_APPEND, Open, Create, Edit " +
 		"(held over 0-3 yields with reads/writes/truncates through the handle, sometimes closed twice); a fifth of the lock files are FIFOs (non-regular files, opened O_RDWR only), Mutex.Lock/unlock, Read, Write, Transform; a third of the plans inject 1-2 faults " +
-		"(EINTR storms, ENOLCK or ENOSYS/ENOTSUP on flock, an open refused with EACCES/EPERM, failing truncate after the lock, failing close); lock files that are 0 s to a day old at the start and locks held for 1 s to an hour of simulated time; schedule policies random/sticky/pct/preempt; " +
+		"(EINTR storms, ENOLCK or ENOSYS/ENOTSUP on flock, an open refused with EACCES/EPERM, failing truncate after the lock, failing close); now and then a lock file whose directory does not exist until a later actor creates it; lock files that are 0 s to a day old at the start and locks held for 1 s to an hour of simulated time; schedule policies random/sticky/pct/preempt; " +
 		"non-trivial = some lock request had to wait or readers shared a lock; distinct by decision-trace hash",
 	Gen:     genPlan,
 	NewPlan: func() any { return &Plan{} },
